@@ -297,6 +297,8 @@ package connect
 // Interface contracts. They are assumed at invoke sites and proved for the
 // module's implementations (clause `implements`).
 //@ trusted func protocolHandler.ContentTypes(p) res
+//@   assigns nothing
+//@   assigns nothing
 //@   ensures res == ctmap(p)
 //@ trusted func protocolHandler.SetTimeout(p, request) (ctx, cancel, err)
 //@   requires request != nil
@@ -2035,6 +2037,35 @@ package connect
 // once, with the wrapper that matches the stream type)
 // ---------------------------------------------------------------------------
 
+// The Accept-Post value advertises exactly the union of the protocol handlers'
+// content types (sorted, so that it is the same for every run; only "a
+// permutation" is used of sort.Strings).
+//@ macro inUnion(hs ref, n int, ct seq) bool = exists j int :: {hs[j]} 0 <= j && j < n && mapdom(cast(ctmap(hs[j]), "map[string]struct{}"), ct)
+//@ func sortedAcceptPostValue(handlers) res
+//@   tags C12
+//@   requires forall j int :: {handlers[j]} 0 <= j && j < |handlers| ==> handlers[j] != nil
+//@   assigns nothing
+//@   ensures res == callres("strings.Join", 1)
+//@   assert@call(strings.Join#1): arg1 == ", "   // label: separated-by-comma-and-blank
+//@   assert@call(strings.Join#1): forall ct seq :: {lmem(arg0, ct)} lmem(arg0, ct) ==> inUnion(handlers, |handlers|, ct)   // label: advertises-only-content-types-a-protocol-handler-accepts
+//@   assert@call(strings.Join#1): forall j int, ct seq :: {mapdom(cast(ctmap(handlers[j]), "map[string]struct{}"), ct)} 0 <= j && j < |handlers| && mapdom(cast(ctmap(handlers[j]), "map[string]struct{}"), ct) ==> lmem(arg0, ct)   // label: advertises-every-content-type-a-protocol-handler-accepts
+//@   loop 1:
+//@     invariant contentTypes != nil && 0 - 1 <= rangeindex && fresh(contentTypes)
+//@     invariant forall ct seq :: {mapdom(contentTypes, ct)} mapdom(contentTypes, ct) ==> inUnion(handlers, rangeindex + 1, ct)
+//@     invariant forall j int, ct seq :: {mapdom(cast(ctmap(handlers[j]), "map[string]struct{}"), ct)} 0 <= j && j <= rangeindex && mapdom(cast(ctmap(handlers[j]), "map[string]struct{}"), ct) ==> mapdom(contentTypes, ct)
+//@     assigns mapof(contentTypes), mapvals(contentTypes)
+//@   loop 2:
+//@     invariant contentTypes != nil
+//@     invariant ranged() == cast(ctmap(handler), "map[string]struct{}")
+//@     invariant forall r ref, ct seq :: {mapdom(cast(r, "map[string]struct{}"), ct)} r != contentTypes ==> mapdom(cast(r, "map[string]struct{}"), ct) == before(mapdom(cast(r, "map[string]struct{}"), ct))
+//@     invariant forall ct seq :: {mapdom(contentTypes, ct)} mapdom(contentTypes, ct) <==> (before(mapdom(contentTypes, ct)) || iterated(ct))
+//@     invariant forall q seq :: {iterated(q)} iterated(q) ==> mapdom(ranged(), q)
+//@     assigns mapof(contentTypes), mapvals(contentTypes)
+//@   loop 3:
+//@     invariant forall i int :: {accept[i]} 0 <= i && i < len(accept) ==> iterated(accept[i])
+//@     invariant forall q seq :: {iterated(q)} iterated(q) ==> lmem(accept, q)
+//@     invariant forall q seq :: {iterated(q)} iterated(q) ==> mapdom(contentTypes, q)
+
 //@ func newStreamHandler(procedure, streamType, implementation, options) res
 //@   tags C12, C16
 //@   requires implementation != nil
@@ -2044,6 +2075,8 @@ package connect
 //@   assert@call((*handlerConfig).newProtocolHandlers#1): (callres("newHandlerConfig", 1).Interceptor != nil) == called("Interceptor.WrapStreamingHandler", 1)   // label: interceptors-applied-iff-configured   // tags: C16
 //@   ensures res.implementation == (if called("Interceptor.WrapStreamingHandler", 1) then callres("Interceptor.WrapStreamingHandler", 1) else implementation0)   // label: interceptors-applied-exactly-once-around-the-implementation   // tags: C16
 //@   ensures res.protocolHandlers == callres("(*handlerConfig).newProtocolHandlers", 1)
+//@   ensures res.acceptPost == callres("sortedAcceptPostValue", 1)   // label: the-advertised-value-is-the-one-computed
+//@   assert@call(sortedAcceptPostValue#1): arg0 == callres("(*handlerConfig).newProtocolHandlers", 1)   // label: computed-from-the-very-protocol-handlers-the-handler-dispatches-to
 //@   assert@call((*handlerConfig).newProtocolHandlers#1): arg1 == streamType
 //@   assert@call((*handlerConfig).newSpec#1): arg1 == streamType && arg0 == callres("newHandlerConfig", 1)
 
@@ -2054,6 +2087,8 @@ package connect
 //@   assigns everything
 //@   ensures res != nil && fresh(res) && res.spec.StreamType == 0 && res.spec.Procedure == callres("(*handlerConfig).newSpec", 1).Procedure && !res.spec.IsClient   // label: handler-labelled-with-procedure-and-unary-stream-type
 //@   ensures res.implementation == implementation   // label: the-unary-adapter-is-not-wrapped-by-streaming-interceptors   // tags: C16
+//@   ensures res.protocolHandlers == callres("(*handlerConfig).newProtocolHandlers", 1) && res.acceptPost == callres("sortedAcceptPostValue", 1)   // label: the-advertised-value-is-the-one-computed
+//@   assert@call(sortedAcceptPostValue#1): arg0 == callres("(*handlerConfig).newProtocolHandlers", 1)   // label: computed-from-the-very-protocol-handlers-the-handler-dispatches-to
 //@   ensures !called("Interceptor.WrapStreamingHandler", 1) && !called("newStreamHandler", 1)   // label: no-streaming-wrapper-around-a-unary-handler   // tags: C16
 //@   assert@call(Interceptor.WrapUnary#1): arg0 == callres("newHandlerConfig", 1).Interceptor   // label: the-configured-chain-wraps-the-unary-function   // tags: C16
 //@   assert@call((*handlerConfig).newProtocolHandlers#1): (callres("newHandlerConfig", 1).Interceptor != nil) == called("Interceptor.WrapUnary", 1)   // label: unary-interceptors-applied-iff-configured   // tags: C16
@@ -2316,8 +2351,10 @@ package connect
 //@   assert@call(protocol.NewHandler): arg1 != nil && arg1.Spec.Procedure == c.Procedure && arg1.Spec.StreamType == streamType && !arg1.Spec.IsClient && arg1.ReadMaxBytes == c.ReadMaxBytes && arg1.CompressMinBytes == c.CompressMinBytes && arg1.BufferPool == c.BufferPool && arg1.Codecs == callres("newReadOnlyCodecs", 1) && arg1.CompressionPools == callres("newReadOnlyCompressionPools", 1)   // label: protocol-handlers-get-the-configured-spec-codecs-pools-and-limits
 //@   assert@call(newReadOnlyCodecs#1): arg0 == c.Codecs
 //@   assert@call(newReadOnlyCompressionPools#1): arg0 == c.CompressionPools
+//@   ensures forall j int :: {seq(res)[j]} 0 <= j && j < |res| ==> seq(res)[j] != nil   // label: every-protocol-handler-exists
+//@   ensures forall j int :: {res[j]} 0 <= j && j < |res| ==> seq(res)[j] == res[j] && res[j] != nil   // label: every-protocol-handler-exists-(indexed-form)
 //@   loop 1:
-//@     invariant true
+//@     invariant forall j int :: {seq(handlers)[j]} 0 <= j && j < |handlers| ==> seq(handlers)[j] != nil
 //@     assigns elems(handlers)
 
 // option.go: the limit options set exactly their field (C09, C08)
